@@ -105,7 +105,8 @@ def check(run, ctx):
     loops = [n for n in ast.walk(cv.node) if isinstance(n, (ast.For, ast.While, ast.ListComp, ast.GeneratorExp))]
     (run.ok(T3, "_create_violation_if_needed", "single build_violation(metrics, issues, ...) outside any loop") if len(builds) == 1 and not loops else run.finding(T3, "_create_violation_if_needed", "per-issue", "violations are built in a loop: a class exceeding two limits would be reported twice", cv.loc))
     bv = repo.func(f"{PKG}.violation_builder.ViolationBuilder.build_violation")
-    joins = [c for c in ast.walk(bv.node) if is_call_named(c, "join") and c.args and ast.unparse(c.args[0]) == "issues"]
+    issues_par = next((a.arg for a in bv.node.args.args if a.arg not in ("self", "cls") and a.annotation is not None and "list" in ast.unparse(a.annotation)), "issues")
+    joins = [c for c in ast.walk(bv.node) if is_call_named(c, "join") and c.args and ast.unparse(c.args[0]) == issues_par]
     (run.ok(T3, "build_violation", "message joins all issues") if joins else run.finding(T3, "build_violation", "join", "the message does not list all exceeded criteria", bv.loc))
 
     T4 = run.rule("T4", "Python, TypeScript and Rust analyzers return metrics records with the same keys, which are the keys evaluate_metrics and build_violation read", floor=4)
@@ -120,7 +121,11 @@ def check(run, ctx):
             run.ok(T4, f"{lang} record", "keys " + ",".join(sorted(recs[lang])))
         else:
             run.finding(T4, f"{mod}", f"keys:{sorted(set(recs[lang]) ^ RECORD_KEYS)}", f"the {lang} metrics record differs from its siblings in {sorted(set(recs[lang]) ^ RECORD_KEYS)}", m.rel)
-    read = {n.slice.value for f in (ev, bv) for n in ast.walk(f.node) if isinstance(n, ast.Subscript) and isinstance(n.slice, ast.Constant) and ast.unparse(n.value) == "metrics"}
+    # every constant-key subscript of the metrics parameter (first non-self parameter), helpers inlined
+    def _mpar(fn_):
+        a_ = [x.arg for x in fn_.node.args.args if x.arg not in ("self", "cls")]
+        return a_[0] if a_ else "metrics"
+    read = {n.slice.value for f in (ev, bv) for n in inline.flat_nodes(repo, f) if isinstance(n, ast.Subscript) and isinstance(n.slice, ast.Constant) and isinstance(n.slice.value, str) and ast.unparse(n.value) == _mpar(f)}
     (run.ok(T4, "readers", f"read {sorted(read)}") if read <= RECORD_KEYS else run.finding(T4, "evaluate_metrics/build_violation", f"reads-unknown:{sorted(read - RECORD_KEYS)}", "a key is read that no analyzer writes", ev.loc))
     # the counts in the record come from the count functions of that language
     for lang, r in recs.items():
